@@ -4,6 +4,8 @@ from .. import oracles
 
 class C19(Prop):
     pid = "C19"
+    quick = {"seeds": 6000, "wall_cap": 90, "chunk": 16}
+    thorough = {"seeds": 120000, "wall_cap": 1500, "chunk": 32}
     level = "exploration"
     rule = ("one case = one seeded history (1-3 continued integrate(t) calls, optionally one rhs fault + resume; uniform and adaptive grids, forward and "
             "backward, dense on and off, no reversals).  After EVERY op a list-of-samples reference model is queried: all integer indices in "
